@@ -126,13 +126,18 @@ def violations(prop, items, allow_exhausted=False, family_of=None):
             kinds.append('differ')
         if x['cls'] in ('exhausted_prefix', 'exhausted_other') and not allow_exhausted:
             kinds.append('unexpected_stack_overflow')
+        elif x['cls'] == 'exhausted_other' and allow_exhausted == 'prefix':
+            # C04 differential clause (programs without time travel): what was printed before the overflow must
+            # be a prefix of what the source semantics prints
+            kinds.append('overflow_output_not_a_prefix')
         if x['hst'] == 'halted' and not kinds:
             kinds.append('source_semantics_halts')
         for kd in kinds:
             fam = it.meta.get('family', '')
             out.append(common.Violation(prop, '%s in %s args=%s w=%d s=%d%s' % (
                 kd, fam or 'program', it.args, it.w, it.s, ' unchecked' if it.unchecked else ''),
-                classifier=dict({'kind': kd, 'family': fam, 'w': it.w, 'unchecked': it.unchecked},
+                classifier=dict({'kind': kd, 'family': fam, 'w': it.w, 'unchecked': it.unchecked,
+                                 'wraps': bool(x.get('wrap'))},
                                 **it.meta.get('classifier', {})),
                 detail={'source': it.src, 'args': it.args, 'w': it.w, 's': it.s, 'unchecked': it.unchecked,
                         'options': it.opt, 'machine_status': x['status'], 'source_status': x['hst'],
@@ -140,3 +145,33 @@ def violations(prop, items, allow_exhausted=False, family_of=None):
                         'machine_observable': show(x['mobs']), 'source_observable': show(x['hobs']),
                         'features': it.meta.get('features')}))
     return out
+
+
+ASSUME = ['Sphinx ISA as reconstructed (A1) - validated against the 52 upstream code generation tests',
+          'assembler directive/expression syntax (A2)',
+          'source IR derived from the front end\'s typed tree (the front end is judged by C06/C07/C11/C12)',
+          'TLC, SANY, CommunityModules']
+
+
+def standard(prop, tier, seed, items, rule, t0, kinds=None, allow_exhausted=False, presize_limit=None, max_level=None,
+             extra_violations=(), extra_cov=None, monitors=True, postfilter=None, assumptions=()):
+    """Common tail of the run-time checks: size, run under TLC, judge, write evidence."""
+    quick = tier == 'quick'
+    presize_limit = presize_limit or (3000 if quick else 6000)
+    max_level = max_level or (10000 if quick else 20000)
+    items = presize(items, presize_limit)
+    st = Stats()
+    run(items, st, monitors=monitors, max_level=max_level, timeout=900 if quick else 3300)
+    if st.cases == 0:
+        raise common.Machinery('no case was judged (%s)' % dict(st.skipped))
+    vs = []
+    for it in items:
+        one = violations(prop, [it], allow_exhausted=allow_exhausted or it.meta.get('allow_exhausted', False))
+        vs += one
+    if kinds is not None:
+        vs = [v for v in vs if v.classifier['kind'] in kinds]
+    if postfilter:
+        vs = postfilter(vs, items)
+    vs += list(extra_violations)
+    cov = st.coverage(dict({'rule': rule, 'exhaustive': False}, **(extra_cov or {})))
+    return common.finish(prop, tier, seed, 'model_checking', cov, vs, t0, list(ASSUME) + list(assumptions))
